@@ -1,9 +1,38 @@
 import TaurexModel.Proto
+import TaurexModel.Binning
+import TaurexModel.Observation
 
 namespace Taurex.Ops.C17
-open Taurex.Proto
+open Taurex.Proto Taurex.Binning Taurex.Observation
 
-/-- operations of the C17 model served by `driver_c17` (filled in by the C17 check) -/
-def ops : List Op := []
+/-- rows of the observation array (3 columns: width 0) -/
+def mkORows (rows : List (List Float)) : List (ORow Float) :=
+  rows.map (fun r => ({ wl := r.getD 0 0, v := r.getD 1 0, e := r.getD 2 0, bw := r.getD 3 0 } : ORow Float))
+
+def mkRows (c s : List Float) : List (Row Float) :=
+  (List.range c.length).map (fun i => ({ c := c.getD i 0, w := 0, s := s.getD i 0, e := 0 } : Row Float))
+
+/-- `c17.load kind rows native_c native_s`
+    kind 0: `ArraySpectrum(rows)` with 3 columns, 1: 4 columns,
+         2: `TaurexSpectrum` from rows `(wn, spectrum, noise, wnwidth)`
+    → `wavenumberGrid spectrum errorBar binWidths binEdges binner._wngrid binner._wngrid_width
+       create_binner().bin_model((native_c, native_s))[1]` -/
+def loadOp (args : List String) : Option String :=
+  run (do
+    let kind ← nat
+    let rows ← listOf (listOf flt)
+    let nc ← listOf flt
+    let ns ← listOf flt
+    pure (kind, rows, nc, ns)) args >>= fun (kind, rows, nc, ns) =>
+  if rows.length < 2 then none else
+    let orows := if kind == 2 then (mkORows rows).map fromTaurex else mkORows rows
+    let o := load (kind != 0) orows
+    let b := o.createBinner
+    let binned := if nc.length < 2 then [] else o.binModel (mkRows nc ns)
+    some (fList fF o.wavenumberGrid ++ " " ++ fList fF o.spectrum ++ " " ++ fList fF o.errorBar ++ " " ++
+      fList fF o.binWidths ++ " " ++ fList fF o.binEdges ++ " " ++ fList fF (b.map TBin.c) ++ " " ++
+      fList fF (b.map TBin.w) ++ " " ++ fList fF binned)
+
+def ops : List Op := [("c17.load", loadOp)]
 
 end Taurex.Ops.C17
